@@ -439,6 +439,16 @@ def base_specs(n, seed, tier):
             {"id": "s1", "name": "s1", "kind": "TaskStartAt", "task": "feed", "value": 0},
             {"id": "s2", "name": "s2", "kind": "TaskStartAt", "task": "drain", "value": 3}],
             objectives=[{"kind": "Makespan"}]))
+    # a plain worker and a cumulative worker, the same kind of indicator on each
+    for dur in (4, None):
+        t2 = fam.fx("t2", 4) if dur else fam.vr("t2", 1, 4)
+        sp = fam.base(10, [fam.fx("t1", 2), t2], workers=[{"name": "w0"}], cumulative=[{"name": "cu", "size": 2}],
+                      requirements=[{"task": "t1", "resource": "w0"}, {"task": "t2", "resource": "cu"}],
+                      indicators=[{"id": "i", "kind": "Utilization", "resource": "w0"},
+                                  {"id": "j", "kind": "Utilization", "resource": "cu"}])
+        if not dur:
+            sp["objectives"] = [{"kind": "MaximizeIndicator", "indicator": "j", "weight": 1}]
+        out.append(sp)
     out += collision_specs()
     return out
 
